@@ -385,6 +385,34 @@ def check(run: Run) -> None:
         if n_kind < 2:
             run.finding("C19.k", "input_adaptation_rank:kind-tests-missing", "both dereferenced schemas must be checked for TS kind before the bundle distance is taken", loc=fa.loc(fa.body))
 
+    with run.obligation("C19.l", "K7+K6", "(i) the INPUT matcher of time-series patterns keeps input semantics at every depth: every recursive match of a child pattern inside "
+                        "input_ts_pattern_match (list element, dictionary value, each bundle field, referenced series) goes through input_ts_pattern_match itself - only the "
+                        "final `same pattern, same series` fall-through may use the plain matcher - so REF / SIGNAL / inheritance transparency does not stop at a bundle field; "
+                        "(ii) a repeated scalar variable accepts an argument that IS-A the bound bundle: bundle_is_a(candidate = the argument, base = the bound type), never the reverse"):
+        TPAT = "src/hgraph/types/type_pattern.cpp"
+        fa = R.fn(run, TPAT, "input_ts_pattern_match")
+        cn = R.Canon()
+        rec_in = [c for c in R.calls(fa, "input_ts_pattern_match")]
+        rec_plain = [c for c in R.calls(fa, "ts_pattern_match")]
+        run.sites(len(rec_in), 4, "recursive input matches")
+        for c in rec_plain:
+            run.count(1, "C19.l.rec")
+            a0 = cn(c.args[0]).replace(" ", "") if c.args else ""
+            if a0 != "pattern":                       # a CHILD pattern handed to the plain matcher
+                run.finding("C19.l", f"input_ts_pattern_match:child-matched-without-input-semantics:{a0[:40]}", f"input_ts_pattern_match hands the child pattern `{a0}` to the plain "
+                            "ts_pattern_match: below that point a REF parameter no longer accepts the referenced series, SIGNAL no longer accepts any series and a base-bound "
+                            "variable no longer accepts a derived bundle, so the most specific candidate is rejected for an argument it should win", loc=fa.loc(c))
+        fs = R.fn(run, TPAT, "input_scalar_pattern_match")
+        isa = R.calls(fs, "bundle_is_a")
+        run.sites(len(isa), 1, "bundle_is_a in the scalar input matcher")
+        for c in isa:
+            run.count(1, "C19.l.isa")
+            args = [cn(a).replace(" ", "") for a in c.args]
+            if args != ["concrete", "bound"]:
+                run.finding("C19.l", "input_scalar_pattern_match:is-a-direction", f"bundle_is_a is called with {args}; the ARGUMENT (`concrete`) must be the candidate and the variable's "
+                            "bound type the base: reversed, (TS[Dog], TS[Animal]) matches T=Dog although an Animal is not a Dog, and the legal (TS[Animal], TS[Dog]) is refused",
+                            loc=fs.loc(c))
+
 
 def _enum(run, rel, struct):
     fi = run.tree.file(rel)
@@ -395,6 +423,8 @@ def _enum(run, rel, struct):
 
 
 VARIANTS = [
+    {"id": "l-seed-C19-7-is-a-direction-reversed", "expect": "C19.l", "edits": [{"file": "src/hgraph/types/type_pattern.cpp", "find": "TypeRegistry::instance().bundle_is_a(concrete, bound))", "replace": "TypeRegistry::instance().bundle_is_a(bound, concrete))"}]},
+    {"id": "l-seed-C19-8-bundle-field-matched-by-plain-matcher", "expect": "C19.l", "edits": [{"file": "src/hgraph/types/type_pattern.cpp", "find": "                    if (!input_ts_pattern_match(pattern.children[i], field.type, map)) { return false; }", "replace": "                    if (!ts_pattern_match(pattern.children[i], field.type, map)) { return false; }"}]},
     {"id": "j-first-occurrence-wins", "expect": "C19.j", "edits": [{"file": "include/hgraph/types/operator_dispatch.h", "find": "                auto [it, inserted] = vars.emplace(std::move(key), rank);\n                if (!inserted && rank < it->second) { it->second = rank; }", "replace": "                vars.try_emplace(std::move(key), rank);"}]},
     {"id": "k-kind-test-before-dereference", "expect": "C19.k", "edits": [{"file": "src/hgraph/types/operator_dispatch.cpp", "find": "            if (pattern.kind != TypePattern::Kind::Concrete || pattern.meta == nullptr || concrete == nullptr)\n            {\n                return 0;\n            }\n\n            TypeRegistry &registry", "replace": "            if (pattern.kind != TypePattern::Kind::Concrete || pattern.meta == nullptr || concrete == nullptr ||\n                pattern.meta->kind != TSTypeKind::TS || concrete->kind != TSTypeKind::TS)\n            {\n                return 0;\n            }\n\n            TypeRegistry &registry"}]},
     {"id": "i-none-default-not-counted", "expect": "C19.i", "edits": [{"file": DISP, "find": "                        synthesised.scalar_meta  = synthesised.scalar_value.schema();\n                    }\n                    filled[p] = std::move(synthesised);\n                    ++out.defaults_used;", "replace": "                        synthesised.scalar_meta  = synthesised.scalar_value.schema();\n                        ++out.defaults_used;\n                    }\n                    filled[p] = std::move(synthesised);"}]},
